@@ -138,7 +138,12 @@ func (lh *WorkerLoop) handleUpdateState(receivedBlockWithProof *blockWithProof) 
 	}
 }
 
-func (lh *WorkerLoop) ValidateBlockConsensus(ctx context.Context, block interfaces.Block, blockProofBytes []byte, prevBlock interfaces.Block, maybePrevBlockProofBytes []byte, softVerify bool) error {
+func (lh *WorkerLoop) ValidateBlockConsensus(ctx context.Context, block interfaces.Block, blockProofBytes []byte, prevBlock interfaces.Block, maybePrevBlockProofBytes []byte, softVerify bool) (err error) {
+	defer func() {
+		if r := recover(); r != nil { // the lazily parsing readers panic on corrupt offsets inside a malformed proof
+			err = errors.Errorf("ValidateBlockConsensus: malformed block proof: %v", r)
+		}
+	}()
 	if ctx.Err() != nil {
 		return errors.New("context canceled")
 	}
